@@ -24,6 +24,7 @@ use yverif::shell::run_script;
 mod listing {
     //! Listings leg.  Case: `L <op> <op> …`, each op colon-separated with hex strings:
     //!   `v:<name>:<value>:<attrs>`   `typeset [-x] [-r] -- 'name=value'`     attrs ⊆ "xr" or `-`
+    //!                                (`pv:` / `pn:` = the name starts with `+`: listed without `--`, known finding)
     //!   `n:<name>:<attrs>`           `typeset [-x] [-r] -- 'name'` (no value; keeps an existing value)
     //!   `a:<name>:<v1>,<v2>…:<attrs>` `name=('v1' 'v2' …)` then `typeset -x…` (name is an identifier)
     //!   `l:<name>:<value>`           `alias -- 'name=value'`   (`lg:` = both parts unquoted with `[` … `]` across)
@@ -179,12 +180,12 @@ mod listing {
         for op in case.split_whitespace().skip(1) {
             let f: Vec<&str> = op.split(':').collect();
             match f.as_slice() {
-                ["v", n, v, a] => sc.push_str(&format!(
+                ["v" | "pv", n, v, a] => sc.push_str(&format!(
                     "typeset {}-- {}\n",
                     attrs_opts(a),
                     sq(&format!("{}={}", dec_str(n)?, dec_str(v)?))
                 )),
-                ["n", n, a] => sc.push_str(&format!("typeset {}-- {}\n", attrs_opts(a), sq(&dec_str(n)?))),
+                ["n" | "pn", n, a] => sc.push_str(&format!("typeset {}-- {}\n", attrs_opts(a), sq(&dec_str(n)?))),
                 ["a", n, vs, a] => {
                     let name = dec_str(n)?;
                     let vals: Vec<String> = if *vs == "." {
@@ -432,6 +433,19 @@ mod listing {
         s
     }
 
+    /// names that look like options or operands needing `--`: leading `-`, `--`, `+`, alone or followed by
+    /// letters, blanks, quotes, other specials, non-ASCII
+    fn dash_name(r: &mut Rng) -> String {
+        let mut s = r.pick(&["-", "-", "--", "-p", "-x", "-r", "-f", "-a", "-o", "+x", "+", "+o", "-\u{e9}", "-\u{3000}"]).to_string();
+        if r.chance(1, 2) {
+            s.push_str(&weird(r, 2, false));
+        }
+        if r.chance(1, 6) {
+            s.push_str(r.pick(&[" b", "'", "\"", "$x", "*", "~", "#", "\n", ";"]));
+        }
+        s
+    }
+
     fn weird(r: &mut Rng, max: usize, allow_eq: bool) -> String {
         loop {
             let s = random_string(r, CORE, max);
@@ -450,10 +464,15 @@ mod listing {
             match r.below(12) {
                 0..=3 => {
                     // scalar / valueless variable
-                    let name = if r.chance(1, 2) { ident(r) } else { weird(r, 4, false) };
+                    let name = match r.below(8) {
+                        0..=3 => ident(r),
+                        4 | 5 => dash_name(r),
+                        _ => weird(r, 4, false),
+                    };
                     if readonly.contains(&name) || (name.is_empty() && r.chance(3, 4)) {
                         continue;
                     }
+                    let plus = if name.starts_with('+') { "p" } else { "" };
                     let attrs = *r.pick(&["-", "-", "x", "r", "xr"]);
                     if attrs.contains('r') {
                         readonly.push(name.clone());
@@ -462,10 +481,10 @@ mod listing {
                         if arrays.contains(&name) {
                             continue;
                         }
-                        ops.push(format!("n:{}:{}", h(&name), attrs));
+                        ops.push(format!("{plus}n:{}:{}", h(&name), attrs));
                     } else {
                         arrays.retain(|a| *a != name);
-                        ops.push(format!("v:{}:{}:{}", h(&name), h(&weird(r, 6, true)), attrs));
+                        ops.push(format!("{plus}v:{}:{}:{}", h(&name), h(&weird(r, 6, true)), attrs));
                     }
                 }
                 4 => {
@@ -483,8 +502,12 @@ mod listing {
                     ops.push(format!("a:{}:{}:{}", h(&name), if vals.is_empty() { ".".into() } else { vals.join(",") }, attrs));
                 }
                 5..=7 => {
-                    let mut name = if r.chance(1, 2) { ident(r) } else { weird(r, 4, false) };
-                    if name.is_empty() {
+                    let mut name = match r.below(8) {
+                        0..=3 => ident(r),
+                        4 => dash_name(r),
+                        _ => weird(r, 4, false),
+                    };
+                    if name.is_empty() || name.contains('=') {
                         continue;
                     }
                     let mut value = weird(r, 8, true);
@@ -501,7 +524,12 @@ mod listing {
                 9 => ops.push(format!("m:{:03o}", r.below(512))),
                 10 => ops.push(format!("o:{}:{}", r.pick(OPTS), r.below(2))),
                 _ => {
-                    let name = if r.chance(3, 4) { ident(r) } else if r.chance(1, 6) { r.pick(KEYWORDS).to_string() } else { weird(r, 3, true) };
+                    let name = match r.below(24) {
+                        0..=15 => ident(r),
+                        16..=18 => dash_name(r),
+                        19 => r.pick(KEYWORDS).to_string(),
+                        _ => weird(r, 3, true),
+                    };
                     if name.is_empty() {
                         continue;
                     }
